@@ -9,7 +9,9 @@
 #include <stdlib.h>
 #include <string.h>
 #include "log_stub.h"
-#define CJ_DEPTH 1   /* stub responses: a childless object, or an object owning one leaf payload */
+#ifndef CJ_DEPTH
+#define CJ_DEPTH 1   /* stub responses: a childless object, or an object owning one leaf payload (rt.message: 2) */
+#endif
 #include "cjson_model.h"
 
 #include "generated/cjet_config.h"
@@ -93,7 +95,8 @@ cJSON *create_error_response_from_request(const struct peer *p, const cJSON *req
 
 /* ---- environment ------------------------------------------------------------------------------------------ */
 void log_peer_err(const struct peer *p, const char *fmt, ...) { (void)p; (void)fmt; }
-void *cjet_malloc(size_t n) { return malloc(n); }
+static bool verif_malloc_may_fail;
+void *cjet_malloc(size_t n) { if (verif_malloc_may_fail && nondet_bool()) return NULL; return malloc(n); }
 static unsigned verif_freed_rr; static void *verif_freed_ptr[4];
 #define NREQ 2
 static struct routing_request *verif_rq[NREQ];
@@ -212,7 +215,13 @@ void h_rt_reply(void)
 	/* the reply arrives on some peer's connection: the owner, or a caller forging an id */
 	struct peer *from = nondet_bool() ? &verif_owner : &verif_c1;
 	if (from == &verif_c1) { int r = add_routing_table(&verif_c1); __CPROVER_assume(r == 0); }
+#ifdef RT_ALLOC_FAIL
+	verif_cj_may_fail = true;   /* C15: every JSON allocation of the handler (copy of the reply, response object, rendering) may fail */
+#endif
 	int r = handle_routing_response(&json_rpc, &payload, is_error ? "error" : "result", from);
+#ifdef RT_ALLOC_FAIL
+	verif_cj_may_fail = false;
+#endif
 	unsigned hit = NREQ;
 	if (has_id && idn.type == cJSON_String && from == &verif_owner) for (unsigned i = 0; i < verif_n; i++) if (verif_rid[i][0] == idbuf[0]) hit = i;
 	for (unsigned i = 0; i < verif_n; i++) {
@@ -224,15 +233,28 @@ void h_rt_reply(void)
 		}
 	}
 	if (hit < NREQ && verif_has_oid[hit]) {
+#ifdef RT_ALLOC_FAIL
+		/* under allocation failure the answer may be lost, but never doubled or mis-addressed (C15: at most one response) */
+		__CPROVER_assert(verif_sends == 0 || (verif_sends == 1 && ANSWER_FOR(0, hit, is_error) && verif_msg_payload_type[0] == payload.type), "C15.reply.at-most-one-answer-with-its-id-and-the-owners-payload");
+#else
 		__CPROVER_assert(verif_sends == 1 && ANSWER_FOR(0, hit, is_error) && verif_msg_payload_type[0] == payload.type, "C03.reply.caller-gets-exactly-one-answer-with-its-id-and-the-owners-payload");
+#endif
 	} else {
 		__CPROVER_assert(verif_sends == 0, "C03.reply.unknown-forged-or-idless-requests-produce-no-message");
 	}
 	__CPROVER_assert(hit < NREQ || verif_freed_rr == 0, "C03.reply.unmatched-reply-has-no-effect");
+#ifndef RT_ALLOC_FAIL
+	/* the owner's reply is consumed successfully even if forwarding it to the caller fails: a failing caller must not make the
+	 * daemon reject the owner's message (parse_message would fail and the owner's connection be closed) */
+	__CPROVER_assert(!(has_id && idn.type == cJSON_String) || r == 0, "C11.reply.callers-failing-connection-does-not-fail-the-owners-message");
+#endif
 	(void)r;
 	if (from == &verif_c1) delete_routing_table(&verif_c1);
 	release();
 	__CPROVER_assert(verif_cj_live_nodes == 0, "C03.reply.no-json-node-left-behind");
+#ifdef RT_ALLOC_FAIL
+	VERIF_COVER(hit < NREQ && verif_has_oid[hit] && verif_sends == 0, "answer lost to an allocation failure");
+#endif
 	VERIF_COVER(hit == verif_n - 1 && verif_has_oid[hit], "last request answered");
 	VERIF_COVER(hit == NREQ && has_id && idn.type == cJSON_String && from == &verif_owner, "unknown id");
 	VERIF_COVER(from == &verif_c1 && has_id && idn.type == cJSON_String && idbuf[0] == 'a' && verif_n >= 1, "forged id from a peer that does not own the element");
@@ -262,6 +284,25 @@ void h_rt_timeout(void)
 	__CPROVER_assert(verif_cj_live_nodes == 0, "C14.timeout.no-json-node-left-behind");
 	VERIF_COVER(!cancelled && verif_has_oid[t], "timeout answered");
 	VERIF_COVER(cancelled, "cancelled");
+}
+
+/* ---- rt.cancel: a registered request is taken back (its forwarding failed and it is answered at once) ---------- */
+void h_rt_cancel(void)
+{
+	world(); remember();
+	__CPROVER_assume(verif_n >= 1);
+	unsigned t = nondet_uint();
+	__CPROVER_assume(t < verif_n);
+	cancel_routing_request(&verif_owner, verif_rq[t]);
+	/* the record itself stays with the caller (set_or_call releases it): gone from the table, timer stopped and destroyed, no message */
+	__CPROVER_assert(!in_table(t) && !was_freed(t) && verif_cancelled[t] == 1 && verif_destroyed[t] == 1, "C02.cancel.request-leaves-the-table-timer-cancelled-and-destroyed-once");
+	__CPROVER_assert(verif_sends == 0 && verif_freed_rr == 0, "C02.cancel.nobody-is-answered-and-nothing-is-released");
+	for (unsigned i = 0; i < verif_n; i++) if (i != t) __CPROVER_assert(in_table(i) && !was_freed(i) && verif_cancelled[i] == 0 && verif_destroyed[i] == 0, "C03.cancel.other-requests-untouched");
+	/* what set_or_call does next */
+	cJSON_Delete(verif_rq[t]->origin_request_id); verif_rq[t]->origin_request_id = NULL;
+	release();
+	__CPROVER_assert(verif_cj_live_nodes == 0, "C02.cancel.no-json-node-left-behind");
+	VERIF_COVER(t == 0, "first request cancelled");
 }
 
 /* ---- rt.ownerdown: the owner disconnects --------------------------------------------------------------------- */
@@ -356,6 +397,20 @@ void h_rt_alloc(void)
 	cJSON oid; oid.type = cJSON_String; oid.valuestring = "x"; oid.string = NULL; oid.child = NULL; oid.next = NULL;
 	bool id1 = nondet_bool(), id2 = nondet_bool();
 	struct peer *req = &verif_c1;
+#ifdef RT_ALLOC_FAIL
+	/* C15: the record or the copy of the caller's id cannot be allocated: nothing is returned, nothing is left behind, nothing freed is touched */
+	verif_malloc_may_fail = true; verif_cj_may_fail = true;
+	struct routing_request *f = alloc_routing_request(req, &verif_owner, id1 ? &oid : NULL);
+	verif_malloc_may_fail = false; verif_cj_may_fail = false;
+	if (f != NULL) {
+		__CPROVER_assert(f->requesting_peer == req && f->owner_peer == &verif_owner && (f->origin_request_id != NULL) == id1, "C15.alloc.record-complete-or-not-returned");
+		cJSON_Delete(f->origin_request_id); free(f);
+	}
+	__CPROVER_assert(verif_cj_live_nodes == 0, "C15.alloc.no-node-left-behind");
+	VERIF_COVER(f == NULL && id1, "allocation failed for a request with id");
+	VERIF_COVER(f != NULL && id1, "record with id built");
+	(void)id2;
+#else
 	struct routing_request *a = alloc_routing_request(req, &verif_owner, id1 ? &oid : NULL);
 	struct routing_request *b = alloc_routing_request(req, &verif_owner, id2 ? &oid : NULL);
 	__CPROVER_assume(a != NULL && b != NULL);
@@ -365,4 +420,33 @@ void h_rt_alloc(void)
 	cJSON_Delete(a->origin_request_id); cJSON_Delete(b->origin_request_id); free(a); free(b);
 	VERIF_COVER(!id1 && !id2, "two requests without id");
 	VERIF_COVER(id1 && !id2, "mixed");
+#endif
+}
+
+/* ---- rt.message: create_routed_message under allocation failure (C15) -------------------------------------------
+ * the message forwarded to the owner is complete ({id, method, params} resp. {id, method, params:{value}}) or it is not
+ * built at all, and no JSON node is left behind - whichever of its allocations fail */
+void h_rt_message(void)
+{
+	cJSON value; value.type = cJSON_Number; value.valuedouble = 7; value.valueint = 7; value.child = NULL; value.next = NULL; value.prev = NULL; value.string = NULL; value.valuestring = NULL;
+	bool has_value = nondet_bool();
+	enum type what = nondet_bool() ? STATE : METHOD;
+	unsigned before = verif_cj_live_nodes;
+	verif_cj_may_fail = true;
+	cJSON *m = create_routed_message(&verif_c1, "pa", what, has_value ? &value : NULL, "id1");
+	verif_cj_may_fail = false;
+	if (m != NULL) {
+		const cJSON *id = cJSON_GetObjectItem(m, "id"), *method = cJSON_GetObjectItem(m, "method"), *params = cJSON_GetObjectItem(m, "params");
+		bool id_ok = id != NULL && id->type == cJSON_String && id->valuestring[0] == 'i' && id->valuestring[1] == 'd' && id->valuestring[2] == '1' && id->valuestring[3] == 0;
+		bool method_ok = method != NULL && method->type == cJSON_String && method->valuestring[0] == 'p' && method->valuestring[1] == 'a' && method->valuestring[2] == 0;
+		bool params_ok = params != NULL;
+		if (params_ok && what == STATE) { const cJSON *v = cJSON_GetObjectItem(params, "value"); params_ok = v != NULL && (!has_value || (v->type == cJSON_Number && v->valuedouble == 7)); }
+		if (params_ok && what == METHOD && has_value) params_ok = params->type == cJSON_Number && params->valuedouble == 7;
+		__CPROVER_assert(id_ok && method_ok && params_ok, "C15.message.complete-or-nothing");
+		cJSON_Delete(m);
+	}
+	__CPROVER_assert(verif_cj_live_nodes == before, "C15.message.no-node-left-behind");
+	VERIF_COVER(m != NULL && what == STATE, "state message built");
+	VERIF_COVER(m != NULL && what == METHOD && !has_value, "call without args built");
+	VERIF_COVER(m == NULL, "refused under allocation failure");
 }
